@@ -23,22 +23,40 @@ import (
 
 var names = []string{"a", "b", "c", "d", "e"}
 
+// alphabets: alphabet 0 is the plain one; the others are built so that the concatenation of two stage
+// names around a separator is ambiguous ("a"+S+"bSa" == "aSb"+S+"a"), that names differ only in case,
+// or that one name is a prefix of another: any encoding of an edge or a node that is not injective on
+// names confuses two declared edges.
+var alphabets = func() [][]string {
+	out := [][]string{{"a", "b", "c", "d", "e"}}
+	for _, sep := range []string{":", "-", ".", "/", "_", ",", " ", "->", "|", "", "\x00", "<-"} {
+		out = append(out, []string{"a", "a" + sep + "b", "b" + sep + "a", "b", "a" + sep + "b" + sep + "a"})
+	}
+	out = append(out, []string{"a", "A", "aa", "Aa", "aA"}, []string{"1", "01", "10", "1.0", "0x1"}, []string{"true", "null", "~", "no", "0"})
+	return out
+}()
+
 type graphCase struct {
 	N     int     `json:"n"`
 	Edges [][2]int `json:"edges"` // [i,j]: stage i depends on stage j
 	Order []int   `json:"order"` // declaration order
 	Desc  bool    `json:"desc"`  // dependency lists in descending order
 	Route string  `json:"route"`
+	Alpha int     `json:"alpha,omitempty"` // naming alphabet
 }
 
 func (c graphCase) String() string {
 	var parts []string
+	names := alphabets[c.Alpha]
 	for _, i := range c.Order {
 		var ds []string
 		for _, d := range c.deps(i) {
 			ds = append(ds, names[d])
 		}
 		parts = append(parts, names[i]+":["+strings.Join(ds, ",")+"]")
+	}
+	if c.Alpha > 0 {
+		return fmt.Sprintf("%s alphabet%d %q", c.Route, c.Alpha, parts)
 	}
 	return c.Route + " " + strings.Join(parts, " ")
 }
@@ -278,6 +296,7 @@ func main() {
 	res := common.NewResult("graph")
 	dir, _ := os.Getwd()
 	run := func(c graphCase) (string, string) {
+		names = alphabets[c.Alpha]
 		switch c.Route {
 		case "direct":
 			return runDirect(c)
@@ -309,7 +328,7 @@ func main() {
 		res.Evaluations++
 		if len(c.Edges) >= 2 && !c.Desc && sort.IntsAreSorted(c.Order) {
 			// counted once globally: only for the canonical representative of the edge set
-			shapes[fmt.Sprint(c.Route, c.N, c.Edges)] = true
+			shapes[fmt.Sprint(c.Route, c.N, c.Edges, c.Alpha)] = true
 		}
 		if res.Evaluations%50021 == 1 {
 			res.AddSample(c.String())
@@ -322,6 +341,7 @@ func main() {
 		}
 		return false
 	}
+	alpha := 0
 	all := func(route string, nmax int, orders bool, desc bool) {
 		for n := 1; n <= nmax; n++ {
 			perms := permutations(n)
@@ -335,7 +355,7 @@ func main() {
 						if ds && !desc {
 							continue
 						}
-						if do(graphCase{N: n, Edges: es, Order: p, Desc: ds, Route: route}) {
+						if do(graphCase{N: n, Edges: es, Order: p, Desc: ds, Route: route, Alpha: alpha}) {
 							return
 						}
 					}
@@ -354,6 +374,15 @@ func main() {
 		all("binary", 2, true, true)
 	case "binary3":
 		all("binary", 3, true, false)
+	case "names3": // every digraph on <=3 stages under every adversarial naming alphabet
+		for alpha = 1; alpha < len(alphabets); alpha++ {
+			all("direct", 3, true, true)
+			all("config", 3, true, false)
+		}
+	case "names4":
+		for alpha = 1; alpha < len(alphabets); alpha++ {
+			all("direct", 4, true, false)
+		}
 	case "direct5": // n=5: every DAG-plus-one-edge neighbourhood of 40 fixed shapes is too coarse; instead all graphs with <=6 edges in one order and its reverse
 		n := 5
 		perms := [][]int{{0, 1, 2, 3, 4}, {4, 3, 2, 1, 0}, {2, 0, 4, 1, 3}}
